@@ -49,6 +49,24 @@ static void* svr_owner(void* arg) { long i; U64 low = htop - 1; (void)arg; pthre
     hstop = 1; return NULL; }
 static void* svr_flipper(void* arg) { long me = (long)arg; pthread_barrier_wait(&bar);
     while (!hstop) (void)hf(inst[me], haddr, htop, 0); return NULL; }
+/* store buffering: thread 0 stores X[i] then loads Y[i], thread 1 stores Y[i] then loads X[i], for the same i at about the same
+ * time.  With sequentially consistent atomic accesses at least one of the two loads sees the other thread's store. */
+#define SBN 1500
+static U32 sbx(int i) { return 1024 + 16 * (U32)i; }
+static U32 sby(int i) { return 1024 + 16 * SBN + 16 * (U32)i; }
+static U64 sbr[2][SBN]; static volatile int sbturn[2];
+static void* sb_thread(void* arg) { long me = (long)arg; int i, r; long rounds = hn;
+    for (r = 0; r < rounds; r++) {
+        /* rendezvous per round; inside a round the two threads run through the indices side by side */
+        __atomic_store_n(&sbturn[me], 2 * r + 1, __ATOMIC_SEQ_CST); while (__atomic_load_n(&sbturn[1 - me], __ATOMIC_SEQ_CST) < 2 * r + 1) {}
+        for (i = 0; i < SBN; i++) {
+            hst(inst[me], me ? sby(i) : sbx(i), 1, 0);
+            sbr[me][i] = hld(inst[me], me ? sbx(i) : sby(i), 0, 0);
+        }
+        __atomic_store_n(&sbturn[me], 2 * r + 2, __ATOMIC_SEQ_CST); while (__atomic_load_n(&sbturn[1 - me], __ATOMIC_SEQ_CST) < 2 * r + 2) {}
+        if (me == 0) { for (i = 0; i < SBN; i++) { if (sbr[0][i] == 0 && sbr[1][i] == 0) hbad++; hst(&root, sbx(i), 0, 0); hst(&root, sby(i), 0, 0); } }
+    }
+    return NULL; }
 static int cmp64(const void* a, const void* b) { U64 x = *(const U64*)a, y = *(const U64*)b; return x < y ? -1 : x > y; }
 static volatile int go;
 static void* adder(void* arg) { long n = (long)arg, i; while (!go) {} for (i = 0; i < n; i++) (void)at_add32(inst[0], 80, 1, 0); return NULL; }
@@ -88,6 +106,16 @@ int main(int argc, char** argv) {
             for (t2 = 1; t2 < nt; t2++) pthread_create(&th[t2], NULL, svr_flipper, (void*)t2);
             for (t2 = 0; t2 < nt; t2++) pthread_join(th[t2], NULL);
             printf("{\"op\":\"stvsrmw%s\",\"threads\":%d,\"per_thread\":%ld,\"lost\":%ld,\"bad_final\":0}\n", tags[k], nt, hn, hbad);
+        }
+        for (k = 0; k < 7; k++) {
+            char nm[16]; long saved = hn;
+            snprintf(nm, sizeof nm, "st%s", tags[k]); hst = lookup(nm); snprintf(nm, sizeof nm, "ld%s", tags[k]); hld = lookup(nm);
+            hbad = 0; hn = hn / 100 < 20 ? 20 : hn / 100; sbturn[0] = sbturn[1] = 0;
+            { int i; for (i = 0; i < SBN; i++) { hst(&root, sbx(i), 0, 0); hst(&root, sby(i), 0, 0); } }
+            pthread_create(&th[0], NULL, sb_thread, (void*)0L); pthread_create(&th[1], NULL, sb_thread, (void*)1L);
+            pthread_join(th[0], NULL); pthread_join(th[1], NULL);
+            printf("{\"op\":\"storebuffer%s\",\"threads\":2,\"per_thread\":%ld,\"lost\":%ld,\"bad_final\":0}\n", tags[k], hn * SBN, hbad);
+            hn = saved;
         }
         for (k = 0; k < 7; k++) for (mode = 0; mode < 2; mode++) {
             char name[16]; U64 total = (U64)nt * (U64)hn, lost = 0, final; U64* all; U64 j, n = 0; int bad_final = 0;
